@@ -777,14 +777,26 @@ def i_BXOR(ins, fmap):
     fmap[T] = fmap(T ^ v)
 
 
+def _setbit_(fmap, loc, indx, b):
+    # replace bit indx of loc (a register or a memory byte) by b. The new
+    # value is written as a whole since a slice of memory is not a location.
+    x = fmap(loc)
+    parts = []
+    if indx > 0:
+        parts.append(x[0:indx])
+    parts.append(b)
+    if indx + 1 < x.size:
+        parts.append(x[indx + 1 : x.size])
+    fmap[loc] = composer(parts)
+
+
 @__pc
 def i_BCLR(ins, fmap):
     imm, src2 = ins.operands
     assert imm._is_cst
     imm.sf = False
     indx = imm.value
-    v = src2[indx : indx + 1]
-    fmap[v] = bit0
+    _setbit_(fmap, src2, indx, bit0)
 
 
 @__pc
@@ -793,8 +805,7 @@ def i_BSET(ins, fmap):
     assert imm._is_cst
     imm.sf = False
     indx = imm.value
-    v = src2[indx : indx + 1]
-    fmap[v] = bit1
+    _setbit_(fmap, src2, indx, bit1)
 
 
 @__pc
@@ -823,5 +834,4 @@ def i_BST(ins, fmap):
     assert imm._is_cst
     imm.sf = False
     indx = imm.value
-    v = src2[indx : indx + 1]
-    fmap[v] = fmap(T)
+    _setbit_(fmap, src2, indx, fmap(T))
